@@ -180,8 +180,10 @@ class History:
         explicit_cancel: set[int] = set()
         failat_scopes: set[int] = set()
 
+        self._cur_snap = None
         for i, (op, res, snap) in enumerate(steps):
             c, a, b, d = op
+            self._cur_snap = snap
             completions = []                      # (task, op, result, snapshot before op start, held before)
             if c < 30:
                 t = a
@@ -234,7 +236,7 @@ class History:
                         self.flags.add("ckif_pass")
                         if ref_eff_cancelled(prev, prev["tasks"][t]["cur"]):
                             self.v("C08", f"step {i}: checkpoint_if_cancelled returned normally in an effectively cancelled scope (task {t})")
-                    if c in (S.YIELD, S.SHIELDCK, S.SLEEP, S.HWAIT):
+                    if c in (S.YIELD, S.SHIELDCK, S.SLEEP, S.HWAIT) and not self.real:
                         self.v("C08", f"step {i}: {S.OPNAMES[c]} by task {t} completed without yielding to the event loop")
                     completions.append((t, op, res, prev, hb))
             elif c == S.NATIVECANCEL:
@@ -439,7 +441,12 @@ class History:
         cur = prev["tasks"][t]["cur"]
         # a request cannot be retracted: the origin must have been visible at some point since the task last ran
         # (another task may have raised a shield in between)
-        visible = sorted(set(ref_visible_cancelled_set(prev, cur)) | self._vis_acc.get(t, set()))
+        visible = set(ref_visible_cancelled_set(prev, cur)) | self._vis_acc.get(t, set())
+        if self.real and self._cur_snap is not None:
+            # real loop: cancel + delivery may both have happened since the previous snapshot
+            visible |= set(ref_visible_cancelled_set(self._cur_snap, cur))
+            visible |= set(ref_visible_cancelled_set(self._cur_snap, self._cur_snap["tasks"][t]["cur"]))
+        visible = sorted(visible)
         for o in origins:
             if o <= 0 or o not in prev["scopes"]:
                 continue
@@ -693,6 +700,30 @@ def scheck(pid: str, tier: str, extra_assumptions=None, known=None) -> int:
         for msg in h.viol.get(pid, []):
             hits.append((w, msg))
             break
+    # ---- the same kinds of programs on REAL loops (stock asyncio, eager task factory, uvloop) ----
+    import sreal
+    real_prof = sgen.Profile(**dict(PROFILES[pid], deadline_prob=0, failat=0, setdeadline=0, tick=0))
+    real_cfg_runs = {}
+    real_flags = {}
+    real_hits = []
+    n_real = 6 if tier == "quick" else 120
+    if pid != "C06":          # C06 is judged on the virtual clock only
+        for cfg in ("asyncio", "eager", "uvloop"):
+            real_cfg_runs[cfg] = 0
+            for _ in range(n_real):
+                rw = sreal.real_random_run(rng, rng.choice([25, 50, 90]), real_prof, cfg)
+                if rw is None:
+                    continue
+                real_cfg_runs[cfg] += 1
+                hr = analyse(rw.ops, rw.outs, real=True)
+                for f in hr.flags:
+                    real_flags[f] = real_flags.get(f, 0) + 1
+                if rw.info.get("timeout"):
+                    real_hits.append((cfg, rw, "program did not finish on the real loop within the time limit (possible deadlock)"))
+                for msg in hr.viol.get(pid, []):
+                    real_hits.append((cfg, rw, msg))
+                    break
+
     # kernel-checked sample (short cases keep vm_compute fast)
     idx = sorted(range(len(cases)), key=lambda i: len(cases[i]))[: (25 if tier == "quick" else 120)]
     vm_ok, vm_log = core.coq_eval_cases(pid.lower(), "Machine", [cases[i] for i in idx], [expected[i] for i in idx], chunk=40)
@@ -711,6 +742,9 @@ def scheck(pid: str, tier: str, extra_assumptions=None, known=None) -> int:
         msg2 = (analyse(w2.ops, w2.outs).viol.get(pid) or [msg])[0] if w2 else msg
         rep.violation(msg2, {"kind": "monitor", "ops": small, "ops_readable": sgen.readable(small)})
         reported += 1
+    for cfg, rw, msg in real_hits[:2]:
+        rep.violation(f"[{cfg} loop] " + msg, {"kind": "monitor-real-loop", "config": cfg, "ops": rw.ops,
+                                               "ops_readable": sgen.readable(rw.ops)[:200]})
     tie = []
     if not proofs_ok:
         tie.append("proof obligation: " + str(rep.coverage.get("proof_failure", {}).get("where")))
@@ -720,7 +754,7 @@ def scheck(pid: str, tier: str, extra_assumptions=None, known=None) -> int:
         tie.append("vm_compute sample disagrees with the extracted model")
     if corpus_incomplete:
         tie.append("stored corpus history can no longer be executed on the implementation: " + corpus_incomplete[0]["file"])
-    if tie and not hits:
+    if tie and not hits and not real_hits:
         d = min(disagreements, key=lambda x: len(x["ops"])) if disagreements else None
         if d:
             d = dict(d)
@@ -743,7 +777,9 @@ def scheck(pid: str, tier: str, extra_assumptions=None, known=None) -> int:
         "op_distribution": opcount,
         "vm_compute_sample": len(idx),
         "vm_compute_ok": vm_ok,
-        "monitor_hits": len(hits),
+        "monitor_hits": len(hits) + len(real_hits),
+        "real_loop_runs": real_cfg_runs,
+        "real_loop_reached": real_flags,
         "samples": [sgen.readable(cases[i])[:40] for i in idx[-2:]],
     })
     for need in INTERESTING[pid]:
